@@ -42,13 +42,16 @@ const (
 )
 
 type Options struct {
-	Mode          Mode
-	Seq           *atomic.Int64 // sequence shared with the application side
-	Activity      *atomic.Int64 // progress counter for watchdogs
-	MyCall        string        // answer to a MYCALL query before the host set one
-	InitialState  string        // DISC | OFFLINE
-	EchoNow       bool          // "CMD now VALUE" echoes (ARDOP_Win style) instead of "CMD VALUE"
-	TrailingSpace bool          // ARDOPc puts a trailing space after NEWSTATE values
+	Mode         Mode
+	Seq          *atomic.Int64 // sequence shared with the application side
+	Activity     *atomic.Int64 // progress counter for watchdogs
+	MyCall       string        // answer to a MYCALL query before the host set one
+	InitialState string        // DISC | OFFLINE
+	// FaultSendID: SENDID while a connection is up is refused with "FAULT ..." (a real TNC sends its ID only from the
+	// DISC state); the refusal is a broadcast line like any other and says nothing about data frames
+	FaultSendID   bool
+	EchoNow       bool // "CMD now VALUE" echoes (ARDOP_Win style) instead of "CMD VALUE"
+	TrailingSpace bool // ARDOPc puts a trailing space after NEWSTATE values
 	// DialGreeting: ARQ data frames delivered directly behind the CONNECTED report (of an ARQCALL: a remote
 	// station that greets at once; of an incoming call: the caller's first frames), i.e. before any further
 	// query of the host is answered.
@@ -628,6 +631,10 @@ func (s *Sim) handleCommand(text string) {
 		}
 	case "SENDID", "ABORT", "CLOSE":
 		out = []string{word}
+		if word == "SENDID" && s.connected && s.opt.FaultSendID {
+			out = []string{"FAULT SENDID not from state " + s.state}
+			s.count("sendid_refused_with_fault", 1)
+		}
 	case "BUFFER":
 		out = []string{"BUFFER " + strconv.Itoa(max(s.queued, 0))}
 	case "ARQCALL":
